@@ -11,20 +11,21 @@ use crate::shp::Req;
 use crate::util::Rng;
 use rustybuzz::Direction;
 
-pub const FAMILIES: [&str; 2] = ["pairs", "chains"];
+pub const FAMILIES: [&str; 3] = ["pairs", "chains", "hangul"];
 
 fn rng_for(seed: u64, k: u64) -> Rng {
     Rng::new(seed.wrapping_mul(0x9E37_79B9_7F4A_7C15).wrapping_add(k.wrapping_mul(0xD1B5_4A32_D192_ED03)).wrapping_add(0xF1A6))
 }
 
 pub fn family_of(k: u64) -> &'static str {
-    FAMILIES[(k % 2) as usize]
+    if k % 5 == 4 { "hangul" } else { FAMILIES[(k % 2) as usize] }
 }
 
 pub fn gen_font(seed: u64, k: u64) -> FontSpec {
     let mut r = rng_for(seed, k);
     match family_of(k) {
         "pairs" => fam_pairs(&mut r),
+        "hangul" => fam_hangul(&mut r),
         _ => fam_chains(&mut r),
     }
 }
@@ -315,9 +316,77 @@ fn fam_chains(r: &mut Rng) -> FontSpec {
     spec
 }
 
+// ------------------------------------------------------------------------------------------ hangul
+
+/// Conjoining jamo (modern and old), a random subset of the precomposed syllables they form, the jamo features
+/// (ljmo / vjmo / tjmo: one single substitution each) and distinct advances: the Hangul shaper composes, decomposes
+/// and flags inside one pre-pass that writes an out-buffer while it reads the in-buffer.
+pub const H_CHARS: &[u32] = &[0x1100, 0x1101, 0x1161, 0x1162, 0x11A8, 0x11AB, 0x115F, 0x1160, 0x11A2, 0x11C3, 0xAC00, 0xAC01, 0xAC04, 0xAC1C, 0xAE4C, 0x302E];
+
+fn fam_hangul(r: &mut Rng) -> FontSpec {
+    let mut cmap: Vec<(u32, u16)> = Vec::new();
+    let mut next = 1u16;
+    for c in H_CHARS {
+        let jamo = *c < 0x1200;
+        if jamo || r.chance(1, 2) {
+            cmap.push((*c, next));
+            next += 1;
+        }
+    }
+    let nj = next - 1;
+    let mut spec = FontSpec::basic(1 + 4 * nj);
+    spec.cmap = cmap;
+    spec.hadv = (0..1 + 4 * nj).map(|g| 400 + 7 * g).collect();
+    let plain: Vec<u16> = (1..=nj).collect();
+    let single = |k: u16| Lookup::one(SubstSubtable::Single1 { coverage: Coverage::Ranges(vec![(1, nj)]), delta: (k * nj) as i16 });
+    let _ = plain;
+    let mut layout = Layout::with_features(vec![(*b"ljmo", vec![0]), (*b"tjmo", vec![2]), (*b"vjmo", vec![1])], vec![single(1), single(2), single(3)]);
+    let all = layout.scripts[0].default_langsys.clone();
+    layout.scripts = vec![ScriptRecord { tag: *b"DFLT", default_langsys: all.clone(), langsys: vec![] }, ScriptRecord { tag: *b"hang", default_langsys: all, langsys: vec![] }];
+    spec.gsub = Some(layout);
+    spec
+}
+
+fn gen_req_hangul(r: &mut Rng) -> Req {
+    let len = r.range(2, 8) as usize;
+    let mut text: Vec<u32> = Vec::new();
+    while text.len() < len {
+        match r.below(6) {
+            0 | 1 => {
+                // a conjoining sequence L V (T)
+                text.push(*r.pick(&[0x1100u32, 0x1101, 0x115F]));
+                text.push(*r.pick(&[0x1161u32, 0x1162, 0x1160, 0x11A2]));
+                if r.chance(1, 2) {
+                    text.push(*r.pick(&[0x11A8u32, 0x11AB, 0x11C3]));
+                }
+            }
+            2 | 3 => text.push(*r.pick(&[0xAC00u32, 0xAC01, 0xAC04, 0xAC1C, 0xAE4C])),
+            4 => text.push(*r.pick(H_CHARS)),
+            _ => text.push(0x302E),
+        }
+    }
+    let clusters: Vec<u32> = (0..text.len() as u32).collect();
+    Req {
+        text: text.into_iter().zip(clusters.into_iter()).collect(),
+        dir: match r.below(4) { 0 | 1 => None, 2 => Some(Direction::LeftToRight), _ => Some(Direction::RightToLeft) },
+        script: if r.chance(1, 2) { Some("Hang".to_string()) } else { None },
+        lang: None,
+        features: vec![],
+        flags: match r.below(3) { 0 => 0, 1 => 3, _ => 0x40 },
+        level: r.below(2) as u8,
+        pre: vec![],
+        post: vec![],
+        nf_vs: None,
+        ptem: None,
+    }
+}
+
 // ------------------------------------------------------------------------------------------ requests
 
 pub fn gen_req(r: &mut Rng, k: u64) -> Req {
+    if family_of(k) == "hangul" {
+        return gen_req_hangul(r);
+    }
     let pairs = family_of(k) == "pairs";
     let len = match r.below(10) { 0..=6 => r.range(2, 6), 7 | 8 => r.range(7, 10), _ => r.range(11, 16) } as usize;
     let mut gl: Vec<u16> = Vec::new();
